@@ -1,21 +1,37 @@
 (* C16, general case: the serialised output is a fixed point of the parser.
 
-   Stage 1  token level ("drop-run"): a successful strict run on `toks`
-            determines a sub-list `kept` (toks minus the argument spacers the
-            run dropped) with  estr v = texts kept,  and EVERY successful run of
-            the same reader function on `kept` returns the same value
-            (`fp_all_holds`, one mutual induction mirroring ReaderCons.CP;
-            the second run is taken at an arbitrary fuel).
+   Stage 1  token level ("drop-run", `fp_all_holds`, one mutual induction
+            mirroring ReaderCons.CP).  A successful strict run on `toks`
+            determines `kept` (toks minus the argument spacers the run dropped)
+            with  estr v = texts kept,  such that
+              det   EVERY successful run of the same reader function on `kept`,
+                    at any fuel, returns the same value and the same rest;
+              succ  on the fragment `frag` (shallow look-ahead peeks) the run on
+                    `kept` SUCCEEDS, with the same fuel;
+              KeptJ every dropped spacer stood in argument position (after a
+                    group closer or after a command name).
+            Top level: `parse_tokens_drop_run`.
    Stage 2  position insensitivity: the reader commutes with erasing token
             positions (`ze_all_holds`), hence token lists that agree on text
-            and category give trees that agree up to positions.
-   Stage 3  assembly with TOKINV (TokInverse.v): `C16_fixed_point_partial`.
+            and category give trees that agree up to positions
+            (`parse_tokens_pos_sim`).
+   Stage 3  assembly with TOKINV (TokInverse.v): `C16_retokenize`,
+            `C16_fixed_point` (on `frag`), `C16_reparse_outcome` (everywhere:
+            the second parse gives the same tree or raises a diagnostic error).
 
-   What is NOT proved: that the second run cannot fail.  The second run follows
-   the first one branch by branch; the only places where it could leave it are
-   the look-ahead peeks of read_item_loop / read_env_loop (a whole command is
-   read ahead and must not raise), which run over tokens whose spacers were
-   dropped by a DIFFERENT (the actual, later) run.  See the report at the end. *)
+   The second run reads `kept ++ Y` where Y is the (already reduced)
+   continuation; what the first run saw of its own continuation `rest` and what
+   the second run sees of Y are related by LK (first token, command name after
+   an Escape, first token after an optional spacer) and, for the peeks of
+   read_item_loop, by PV (the peek views `pvk` agree).
+
+   What is NOT proved: that outside `frag` the second run cannot fail.  It
+   follows the first one branch by branch; the only places where it could leave
+   it are the look-ahead peeks of read_item_loop / read_env_loop (a whole command
+   is read ahead and must not raise), which in the second run range over tokens
+   whose spacers were dropped by a DIFFERENT (the actual, later) run.  `frag`
+   makes those peeks shallow (they read no argument, or exactly one simple
+   group), so that they can be computed. *)
 From Coq Require Import List NArith ZArith Bool Lia.
 From TexModel Require Import Base Tables Chars Tokenizer Tree Reader.
 From TexProofs Require Import ReaderLen ReaderTotal ReaderCons ConsTop ConsBridge.
@@ -3158,8 +3174,7 @@ Qed.
 (* the token before a deleted spacer (TokInverse.last_tok_ok): not a Comment
    (in the output it would swallow the opening brace), and not the letter part
    of a sizing command: "\left {" / "\big [" would be re-tokenised as the single
-   sizing token "left{" / "big[" - the property's own side condition "a sizing
-   prefix is immediately followed by its delimiter" *)
+   sizing token "left{" / "big[". *)
 Definition prev_ok (prev : option token) : bool :=
   match prev with
   | None => true
@@ -3167,15 +3182,34 @@ Definition prev_ok (prev : option token) : bool :=
               negb (is_tc TCommandName l && mem_str (ttext l) TokInverse.sizing_prefixes)
   end.
 
-(* every MergedSpacer that stands directly before `{` or `[` has an admissible
-   predecessor *)
-Fixpoint spacer_ctx_ok (prev : option token) (toks : list token) : bool :=
+(* the property's own side condition "a sizing prefix such as \left or \big is
+   immediately followed by its delimiter": no CommandName token that is the
+   letter part of a sizing command is followed by a spacer and `{` or `[` *)
+Fixpoint sizing_ok (toks : list token) : bool :=
   match toks with
-  | sp :: ((o :: _) as r) =>
-    (if is_tc TMergedSpacer sp && is_opener o then prev_ok prev else true) &&
-    spacer_ctx_ok (Some sp) r
-  | _ => true
+  | [] => true
+  | l :: r1 =>
+    match r1 with
+    | sp :: o :: _ =>
+      negb (is_tc TCommandName l && mem_str (ttext l) TokInverse.sizing_prefixes &&
+            is_tc TMergedSpacer sp && is_opener o)
+    | _ => true
+    end && sizing_ok r1
   end.
+
+Lemma sizing_ok_suffix a b : sizing_ok (a ++ b) = true -> sizing_ok b = true.
+Proof.
+  induction a as [|x a IH]; [auto|]. cbn [app sizing_ok]. intro H.
+  apply andb_true_iff in H. apply IH. tauto.
+Qed.
+
+(* Kept whose every drop has an admissible predecessor IN THE REDUCED LIST *)
+Inductive KeptK : option token -> list token -> list token -> Prop :=
+| KK_nil p : KeptK p [] []
+| KK_keep p t ts ks : KeptK (Some t) ts ks -> KeptK p (t :: ts) (t :: ks)
+| KK_drop p sp t ts ks :
+    is_tc TMergedSpacer sp = true -> opener t -> prev_ok p = true ->
+    KeptK p (t :: ts) ks -> KeptK p (sp :: t :: ts) ks.
 
 Fixpoint lastopt (a : list token) : option token :=
   match a with
@@ -3205,16 +3239,6 @@ Proof.
   destruct a as [|y a']; [reflexivity | exact IH].
 Qed.
 
-Lemma ctx_prev_irrel p q t ts :
-  is_tc TMergedSpacer t = false -> spacer_ctx_ok p (t :: ts) = spacer_ctx_ok q (t :: ts).
-Proof. intro H. destruct ts as [|o r]; [reflexivity|]. cbn [spacer_ctx_ok]. rewrite H. reflexivity. Qed.
-
-Lemma ctx_tail p t ts : spacer_ctx_ok p (t :: ts) = true -> spacer_ctx_ok (Some t) ts = true.
-Proof.
-  destruct ts as [|o r]; [reflexivity|]. cbn [spacer_ctx_ok]. intro H.
-  apply andb_true_iff in H. tauto.
-Qed.
-
 Lemma opener_open_tok t : opener t -> TokInverse.open_tok t.
 Proof. intros [H|H]; [left | right]; apply is_tc_eq; exact H. Qed.
 
@@ -3235,37 +3259,102 @@ Proof.
     destruct (tcat l); try reflexivity; discriminate.
 Qed.
 
-(* Kept (ConsBridge) and DropSp (TokInverse) are the same idea: the bridge *)
-Lemma Kept_DropSp toks kept : Kept toks kept ->
-  forall pre, TokInverse.shaped (pre ++ toks) -> spacer_ctx_ok (lastopt pre) toks = true ->
+(* KeptK and DropSp (TokInverse) are the same idea: the bridge *)
+Lemma KeptK_DropSp p toks kept : KeptK p toks kept ->
+  forall pre, p = lastopt pre -> TokInverse.shaped (pre ++ toks) ->
   TokInverse.DropSp (pre ++ toks) (pre ++ kept).
 Proof.
-  induction 1 as [|t ts ks K IH|sp t ts ks Hsp Hop K IH]; intros pre Hsh Hctx.
+  induction 1 as [p|p t ts ks K IH|p sp t ts ks Hsp Hop Hok K IH]; intros pre Ep Hsh.
   - apply TokInverse.DS_done.
-  - specialize (IH (pre ++ [t])). rewrite <- !app_assoc in IH. apply IH; [exact Hsh|].
-    rewrite lastopt_snoc. eapply ctx_tail. exact Hctx.
-  - assert (Hts : is_tc TMergedSpacer t = false).
-    { destruct Hop as [H|H]; eapply is_tc_excl; try exact H; discriminate. }
-    assert (Hsh' : TokInverse.shaped (pre ++ t :: ts)).
+  - specialize (IH (pre ++ [t])). rewrite <- !app_assoc in IH. apply IH; [|exact Hsh].
+    symmetry. apply lastopt_snoc.
+  - assert (Hsh' : TokInverse.shaped (pre ++ t :: ts)).
     { unfold TokInverse.shaped in *. apply Forall_app in Hsh. destruct Hsh as [H1 H2].
       apply Forall_app. split; [exact H1|]. inversion H2; assumption. }
     apply TokInverse.DS_step.
     + apply is_tc_eq. exact Hsp.
     + apply opener_open_tok. exact Hop.
-    + rewrite last_ok_lastopt. destruct (lastopt pre) as [l|] eqn:El; [|reflexivity].
-      cbn [spacer_ctx_ok] in Hctx. apply andb_true_iff in Hctx. destruct Hctx as [Hc _].
-      assert (Hio : is_opener t = true).
-      { unfold is_opener. destruct Hop as [H|H]; rewrite H; [reflexivity | apply orb_true_r]. }
-      rewrite Hsp, Hio in Hc. cbn [andb] in Hc.
+    + rewrite last_ok_lastopt. rewrite <- Ep. destruct p as [l|]; [|reflexivity].
       unfold TokInverse.shaped in Hsh. rewrite Forall_forall in Hsh.
-      apply prev_ok_last; [| | apply opener_open_tok; exact Hop | exact Hc].
-      * apply Hsh. apply in_or_app. left. apply lastopt_In. exact El.
+      apply prev_ok_last; [| | apply opener_open_tok; exact Hop | exact Hok].
+      * apply Hsh. apply in_or_app. left. apply lastopt_In. symmetry. exact Ep.
       * apply Hsh. apply in_or_app. right. right. left. reflexivity.
-    + apply IH; [exact Hsh'|].
-      apply ctx_tail in Hctx. rewrite (ctx_prev_irrel _ (Some sp) t ts Hts). exact Hctx.
+    + apply IH; [exact Ep | exact Hsh'].
 Qed.
 
-Definition drop_ctx_ok (toks : list token) : bool := spacer_ctx_ok None toks.
+(* where a context (Some e, p1) comes from *)
+Lemma ctx_two orig e p1 : ctx None None orig = (Some e, p1) ->
+  exists l x, orig = l ++ [e; x] /\ p1 = Some x.
+Proof.
+  destruct orig as [|x orig0 _] using rev_ind; [discriminate|].
+  rewrite ctx_app. cbn [ctx]. intro H. inversion H as [[H1 H2]].
+  destruct orig0 as [|y l' _] using rev_ind.
+  - cbn [ctx snd] in H1. discriminate H1.
+  - rewrite ctx_snoc in H1. inversion H1; subst y. exists l', x. rewrite <- app_assoc. auto.
+Qed.
+
+Lemma follows_ok_suffix a b :
+  TokInverse.follows_ok (a ++ b) = true -> TokInverse.follows_ok b = true.
+Proof.
+  induction a as [|x a IH]; [auto|]. cbn [app TokInverse.follows_ok]. intro H.
+  apply andb_true_iff in H. apply IH. tauto.
+Qed.
+
+Lemma closer_prev_ok x : closer_cat x = true -> prev_ok (Some x) = true.
+Proof.
+  unfold closer_cat, prev_ok, is_tc. intro H.
+  destruct (tcat x); try discriminate H; reflexivity.
+Qed.
+
+(* every spacer the run dropped stood after a group closer or a command name:
+   never after a Comment; with sizing_ok, never after a sizing prefix *)
+Lemma KeptJ_KeptK p2 p1 toks kept : KeptJ p2 p1 toks kept ->
+  forall orig q, ctx None None orig = (p2, p1) ->
+    TokInverse.shaped (orig ++ toks) -> TokInverse.follows_ok (orig ++ toks) = true ->
+    sizing_ok (orig ++ toks) = true ->
+    (q = p1 \/ match toks with t :: _ => is_tc TMergedSpacer t = false | [] => True end) ->
+    KeptK q toks kept.
+Proof.
+  induction 1 as [p2 p1|p2 p1 t ts ks K IH|p2 p1 sp t ts ks Hsp Hop Hap K IH];
+    intros orig q Hctx Hsh Hfo Hsz Hq.
+  - constructor.
+  - apply KK_keep. apply (IH (orig ++ [t])).
+    + rewrite ctx_app, Hctx. reflexivity.
+    + rewrite <- app_assoc. exact Hsh.
+    + rewrite <- app_assoc. exact Hfo.
+    + rewrite <- app_assoc. exact Hsz.
+    + left. reflexivity.
+  - assert (Eq : q = p1) by (destruct Hq as [E|E]; [exact E | congruence]). subst q.
+    assert (Hts : is_tc TMergedSpacer t = false).
+    { destruct Hop as [H|H]; eapply is_tc_excl; try exact H; discriminate. }
+    apply KK_drop; [exact Hsp | exact Hop | |].
+    + destruct Hap as [(x & -> & Hx)|(e & -> & He)]; [apply closer_prev_ok; exact Hx|].
+      destruct (ctx_two _ _ _ Hctx) as (l & x & -> & ->).
+      rewrite <- app_assoc in Hsh, Hfo, Hsz. cbn [app] in Hsh, Hfo, Hsz.
+      assert (Se : TokInverse.shape e = true /\ TokInverse.shape x = true).
+      { unfold TokInverse.shaped in Hsh. apply Forall_app in Hsh. destruct Hsh as [_ H2].
+        inversion H2 as [|? ? A1 H3]; subst. inversion H3 as [|? ? A2 _]; subst. auto. }
+      destruct Se as [Se Sx].
+      apply follows_ok_suffix in Hfo. cbn [TokInverse.follows_ok] in Hfo.
+      apply andb_true_iff in Hfo. destruct Hfo as [Hfe _].
+      destruct (TokInverse.escape_followed_by_command e x _ Se Sx (is_tc_eq _ _ He) Hfe) as [Ek|Ek].
+      * assert (Hm : mem_str (ttext x) TokInverse.sizing_prefixes = false).
+        { change (l ++ e :: x :: sp :: t :: ts) with (l ++ [e] ++ x :: sp :: t :: ts) in Hsz.
+          rewrite app_assoc in Hsz. apply sizing_ok_suffix in Hsz. cbn [sizing_ok] in Hsz.
+          apply andb_true_iff in Hsz. destruct Hsz as [Hsz _]. apply negb_true_iff in Hsz.
+          assert (Hio : is_opener t = true).
+          { unfold is_opener. destruct Hop as [H|H]; rewrite H; [reflexivity | apply orb_true_r]. }
+          rewrite Hsp, Hio in Hsz. unfold is_tc in Hsz. rewrite Ek in Hsz. cbn [tc_beq andb] in Hsz.
+          destruct (mem_str (ttext x) TokInverse.sizing_prefixes); [discriminate Hsz | reflexivity]. }
+        unfold prev_ok, is_tc. rewrite Ek, Hm. reflexivity.
+      * unfold prev_ok, is_tc. rewrite Ek. reflexivity.
+    + apply (IH (orig ++ [sp])).
+      * rewrite ctx_app, Hctx. reflexivity.
+      * rewrite <- app_assoc. exact Hsh.
+      * rewrite <- app_assoc. exact Hfo.
+      * rewrite <- app_assoc. exact Hsz.
+      * right. exact Hts.
+Qed.
 
 Lemma diag_cases {A} (r : res A) : diag r ->
   match r with
@@ -3280,7 +3369,7 @@ Theorem C16_retokenize (s : str) user t :
   TokInverse.clean s = true -> TokInverse.start_quirk s = false ->
   TokInverse.start_quirk (estr t) = false ->
   hypb (all_skip user) (fst (tokens_of_string s)) = true -> nobare t = true ->
-  drop_ctx_ok (fst (tokens_of_string s)) = true ->
+  sizing_ok (fst (tokens_of_string s)) = true ->
   exists kept, Kept (fst (tokens_of_string s)) kept /\ estr t = texts kept /\
     tokens_of_string (estr t) = (TokInverse.repos 0 kept, TEnd) /\
     (forall t', parse_tokens kept true user = Ok t' -> t' = t) /\
@@ -3292,7 +3381,9 @@ Proof.
   destruct (parse_tokens_drop_run toks user t Hy Hp Hn) as (kept & K & KJ & T & D & U).
   destruct (TokInverse.tokens_shaped s Hcl Hq) as (toks0 & E0 & _ & Hsh & Hfo & Hfirst & _).
   rewrite Etok in E0. inversion E0; subst toks0.
-  pose proof (Kept_DropSp toks kept K [] Hsh Hctx) as DS. cbn [app] in DS.
+  assert (KK : KeptK None toks kept).
+  { apply (KeptJ_KeptK None None toks kept KJ [] None); auto. }
+  pose proof (KeptK_DropSp None toks kept KK [] eq_refl Hsh) as DS. cbn [app] in DS.
   assert (Hq2 : TokInverse.start_quirk (TokInverse.texts kept) = false).
   { change (TokInverse.texts kept) with (texts kept). rewrite <- T. exact Hq'. }
   destruct (TokInverse.drop_spacers_retokenize toks kept DS Hsh Hfo Hfirst Hq2)
@@ -3309,7 +3400,7 @@ Theorem C16_reparse_outcome (s : str) user t :
   TokInverse.clean s = true -> TokInverse.start_quirk s = false ->
   TokInverse.start_quirk (estr t) = false ->
   hypb (all_skip user) (fst (tokens_of_string s)) = true -> nobare t = true ->
-  drop_ctx_ok (fst (tokens_of_string s)) = true ->
+  sizing_ok (fst (tokens_of_string s)) = true ->
   match parse (estr t) true user with
   | Ok t' => expr_pos_sim t t' /\ estr t' = estr t
   | Err e => e = EOFError \/ e = TypeError \/ e = AssertionError
@@ -3336,7 +3427,7 @@ Theorem C16_fixed_point (s : str) user t :
   TokInverse.clean s = true -> TokInverse.start_quirk s = false ->
   TokInverse.start_quirk (estr t) = false ->
   hypb (all_skip user) (fst (tokens_of_string s)) = true -> nobare t = true ->
-  drop_ctx_ok (fst (tokens_of_string s)) = true ->
+  sizing_ok (fst (tokens_of_string s)) = true ->
   frag (fst (tokens_of_string s)) = true ->
   exists t', parse (estr t) true user = Ok t' /\ expr_pos_sim t t' /\ estr t' = estr t.
 Proof.
@@ -3357,7 +3448,7 @@ Theorem C16_fixed_point_partial (s : str) user t t' :
   TokInverse.clean s = true -> TokInverse.start_quirk s = false ->
   TokInverse.start_quirk (estr t) = false ->
   hypb (all_skip user) (fst (tokens_of_string s)) = true -> nobare t = true ->
-  drop_ctx_ok (fst (tokens_of_string s)) = true ->
+  sizing_ok (fst (tokens_of_string s)) = true ->
   parse (estr t) true user = Ok t' ->
   expr_pos_sim t t' /\ estr t' = estr t.
 Proof.
@@ -3395,7 +3486,7 @@ Example exA_hyp : hypb (all_skip []) (fst (tokens_of_string exA)) = true.
 Proof. vm_compute. reflexivity. Qed.
 Example exA_nobare : nobare treeA = true.
 Proof. vm_compute. reflexivity. Qed.
-Example exA_ctx : drop_ctx_ok (fst (tokens_of_string exA)) = true.
+Example exA_ctx : sizing_ok (fst (tokens_of_string exA)) = true.
 Proof. vm_compute. reflexivity. Qed.
 Example exA_reparses : parse (estr treeA) true [] = Ok treeA'.
 Proof. vm_compute. reflexivity. Qed.
@@ -3448,7 +3539,7 @@ Example exB_hyp : hypb (all_skip []) (fst (tokens_of_string exB)) = true.
 Proof. vm_compute. reflexivity. Qed.
 Example exB_nobare : nobare treeB = true.
 Proof. vm_compute. reflexivity. Qed.
-Example exB_ctx : drop_ctx_ok (fst (tokens_of_string exB)) = true.
+Example exB_ctx : sizing_ok (fst (tokens_of_string exB)) = true.
 Proof. vm_compute. reflexivity. Qed.
 Example exB_reparses : parse (estr treeB) true [] = Ok treeB'.
 Proof. vm_compute. reflexivity. Qed.
@@ -3487,7 +3578,7 @@ Theorem C16_sizing_needed :
     parse s true [] = Ok t /\ TokInverse.clean s = true /\ TokInverse.start_quirk s = false /\
     TokInverse.start_quirk (estr t) = false /\
     hypb (all_skip []) (fst (tokens_of_string s)) = true /\ nobare t = true /\
-    drop_ctx_ok (fst (tokens_of_string s)) = false /\
+    sizing_ok (fst (tokens_of_string s)) = false /\
     parse (estr t) true [] = Ok t' /\ ~ expr_pos_sim t t' /\ estr t' = estr t.
 Proof.
   exists [92; 108; 101; 102; 116; 32; 123; 120; 125]%N. eexists. eexists.
@@ -3509,7 +3600,7 @@ Theorem C16_quirk_needed :
     parse s true [] = Ok t /\ TokInverse.clean s = true /\ TokInverse.start_quirk s = false /\
     TokInverse.start_quirk (estr t) = true /\
     hypb (all_skip []) (fst (tokens_of_string s)) = true /\ nobare t = true /\
-    drop_ctx_ok (fst (tokens_of_string s)) = true /\
+    sizing_ok (fst (tokens_of_string s)) = true /\
     parse (estr t) true [] = Ok t' /\ ~ expr_pos_sim t t' /\ estr t' = estr t.
 Proof.
   exists [97; 92; 98; 32; 123; 99; 99; 99; 99; 99; 99; 99; 99; 99; 125; 92; 120]%N.
@@ -3522,16 +3613,19 @@ Proof.
   split; [apply not_sim; vm_compute; discriminate | vm_compute; reflexivity].
 Qed.
 
-(* the Comment clause of drop_ctx_ok excludes harmless inputs: '%c' eol '{x}'
-   is a fixed point of the real code and of the model (the spacer after the
-   comment is not in argument position, so it is not dropped), yet
-   drop_ctx_ok rejects it.  No parse-level witness of necessity exists for
-   this clause as far as we know: see the report. *)
-Example comment_clause_overcautious :
-  let s := [37; 99; 10; 123; 120; 125]%N in
-  exists t, parse s true [] = Ok t /\ estr t = s /\
-            drop_ctx_ok (fst (tokens_of_string s)) = false.
-Proof. cbv zeta. eexists. split; [vm_compute; reflexivity|]. vm_compute. split; reflexivity. Qed.
+(* no side condition about comments is needed: a spacer is only ever dropped
+   after a group closer or a command name (KeptJ), never after a Comment token.
+   '%c' eol '{x}' (the spacer after the comment is not in argument position, so
+   it is kept) and '\a{x}%c' eol '{y}' are covered by the theorem. *)
+Definition exE : str := [92; 97; 123; 120; 125; 37; 99; 10; 123; 121; 125]%N.
+Definition treeE : expr := match parse exE true [] with Ok t => t | Err _ => ERoot [] end.
+Example exE_fixed_point :
+  exists t', parse (estr treeE) true [] = Ok t' /\ expr_pos_sim treeE t' /\ estr t' = estr treeE.
+Proof.
+  apply (C16_fixed_point exE [] treeE); vm_compute; reflexivity.
+Qed.
+Example exE_unchanged : estr treeE = exE.
+Proof. vm_compute. reflexivity. Qed.
 
 (* exC (216 characters): like exB with a quote and a verbatim environment
    instead of the itemize; no \item, so the full theorem applies:
@@ -3569,7 +3663,7 @@ Example exC_hyp : hypb (all_skip []) (fst (tokens_of_string exC)) = true.
 Proof. vm_compute. reflexivity. Qed.
 Example exC_nobare : nobare treeC = true.
 Proof. vm_compute. reflexivity. Qed.
-Example exC_ctx : drop_ctx_ok (fst (tokens_of_string exC)) = true.
+Example exC_ctx : sizing_ok (fst (tokens_of_string exC)) = true.
 Proof. vm_compute. reflexivity. Qed.
 Example exC_frag : frag (fst (tokens_of_string exC)) = true.
 Proof. vm_compute. reflexivity. Qed.
@@ -3618,7 +3712,7 @@ Example exD_hyp : hypb (all_skip []) (fst (tokens_of_string exD)) = true.
 Proof. vm_compute. reflexivity. Qed.
 Example exD_nobare : nobare treeD = true.
 Proof. vm_compute. reflexivity. Qed.
-Example exD_ctx : drop_ctx_ok (fst (tokens_of_string exD)) = true.
+Example exD_ctx : sizing_ok (fst (tokens_of_string exD)) = true.
 Proof. vm_compute. reflexivity. Qed.
 Example exD_frag : frag (fst (tokens_of_string exD)) = true.
 Proof. vm_compute. reflexivity. Qed.
